@@ -26,6 +26,7 @@ func TestVerifC16All(t *testing.T) {
 		Mws  []mwStressCase `json:"mws"`
 		Mr   []mrCase       `json:"mr"`
 		Mrs  []mrStressCase `json:"mrs"`
+		Rp   []rpCase       `json:"rp"`
 	}
 	if err := json.Unmarshal(raw, &in); err != nil {
 		t.Fatal(err)
@@ -100,6 +101,13 @@ func TestVerifC16All(t *testing.T) {
 			r[i] = runMrStress(c)
 		}
 		out["mrs"] = r
+	}
+	if in.Rp != nil {
+		r := make([]rpRes, len(in.Rp))
+		for i, c := range in.Rp {
+			r[i] = runRpCase(c)
+		}
+		out["rp"] = r
 	}
 	if in.Hbb != nil {
 		out["hbb"] = []hbbRes{runHbBypass(20, 150)}
